@@ -113,12 +113,17 @@ ref_add512_u(uint8_t *a, uint64_t v) {
 	ref_add512(a, b);
 }
 
+/* Stages 2 and 3 of the standard started from h = IV, Sigma = 0 and the bit counter N = N0
+ * (64 bytes, least significant first; NULL = 0, i.e. the hash function itself).  N0 != 0 is what
+ * the preset-counter cases of the harness need: the carries inside N are not reachable otherwise. */
 void
-ref_streebog(int bits, const uint8_t *msg, size_t len, uint8_t *out) {
+ref_streebog_ex(int bits, const uint8_t *N0, const uint8_t *msg, size_t len, uint8_t *out) {
 	uint8_t h[64], N[64], Sg[64], m[64], Z[64];
 
 	memset(h, (256 == bits) ? 0x01 : 0x00, 64);
 	memset(N, 0, 64);
+	if (NULL != N0)
+		memcpy(N, N0, 64);
 	memset(Sg, 0, 64);
 	memset(Z, 0, 64);
 	while (len >= 64) {		/* stage 2 */
@@ -141,6 +146,11 @@ ref_streebog(int bits, const uint8_t *msg, size_t len, uint8_t *out) {
 		memcpy(out, h + 32, 32);	/* MSB_256 */
 	else
 		memcpy(out, h, 64);
+}
+
+void
+ref_streebog(int bits, const uint8_t *msg, size_t len, uint8_t *out) {
+	ref_streebog_ex(bits, NULL, msg, len, out);
 }
 
 /* RFC 2104 with B = 64, L = 32/64. */
